@@ -176,7 +176,7 @@ func goodPeerInfo(p *p2penv.Peer, h int64) *types.Peer {
 func (w *world) setupGood() error {
 	g := p2penv.NewPeer(w.n.Ctx, fmt.Sprintf("good-%d", w.in.Seed), true)
 	w.good = g
-	atomic.StoreInt64(&w.goodAdv, 1000)
+	atomic.StoreInt64(&w.goodAdv, 100000)
 	g.Host.SetStreamHandler(p2penv.ProtoDownloadOld, func(s network.Stream) {
 		defer s.Close()
 		var req types.MessageGetBlocksReq
